@@ -577,25 +577,31 @@ func R21() Rule {
 		}
 
 		// ---- D5 one backend write per row write
-		upd := P.MustFunc(core.PkgBttest, "(*table).updateRow")
-		var ws []ssa.Instruction
-		for _, ci := range core.AllCalls(upd) {
-			if isRowsMethod(ci, "ReplaceOrInsert", "Delete") {
-				ws = append(ws, ci.Instr)
-			}
+		upd := P.Func(core.PkgBttest, "(*table).updateRow")
+		if upd == nil || upd.Blocks == nil {
+			c.Infof("R21", "D5/updateRow-single-backend-write", token.NoPos, "no updateRow helper on this tree (inlined): each write site calls the backend itself")
+			upd = nil
 		}
-		okOne := len(ws) == 2 && !core.InstrReaches(ws[0], ws[1]) && !core.InstrReaches(ws[1], ws[0])
-		if okOne {
-			for _, r := range returnsIn(upd) {
-				if !core.InstrDominates(ws[0], r) && !core.InstrDominates(ws[1], r) {
-					// exactly one of them on each path: the return is reachable from one and not both
-					if !(core.InstrReaches(ws[0], r) || core.InstrReaches(ws[1], r)) {
-						okOne = false
+		var ws []ssa.Instruction
+		if upd != nil {
+			for _, ci := range core.AllCalls(upd) {
+				if isRowsMethod(ci, "ReplaceOrInsert", "Delete") {
+					ws = append(ws, ci.Instr)
+				}
+			}
+			okOne := len(ws) == 2 && !core.InstrReaches(ws[0], ws[1]) && !core.InstrReaches(ws[1], ws[0])
+			if okOne {
+				for _, r := range returnsIn(upd) {
+					if !core.InstrDominates(ws[0], r) && !core.InstrDominates(ws[1], r) {
+						// exactly one of them on each path: the return is reachable from one and not both
+						if !(core.InstrReaches(ws[0], r) || core.InstrReaches(ws[1], r)) {
+							okOne = false
+						}
 					}
 				}
 			}
+			c.Check(okOne, "R21", "D5/updateRow-single-backend-write", upd.Pos(), "each path through updateRow performs exactly one of Rows.Delete / Rows.ReplaceOrInsert", "D5: a row write is split into several backend operations: a crash in between leaves half a write")
 		}
-		c.Check(okOne, "R21", "D5/updateRow-single-backend-write", upd.Pos(), "each path through updateRow performs exactly one of Rows.Delete / Rows.ReplaceOrInsert", "D5: a row write is split into several backend operations: a crash in between leaves half a write")
 		for _, m := range []struct{ method, backend string }{{"ReplaceOrInsert", "Put"}, {"Delete", "Delete"}} {
 			fn := P.MustFunc(core.PkgBttest, "(*leveldbRows)."+m.method)
 			n := 0
